@@ -59,6 +59,17 @@ def observe(beacon, block):
         for k, f in views.items():
             r = core.outcome(lambda: list(f().items()))
             o[k] = r[1] if r[0] == "ok" else ("exc", r[1])
+        # the same views of a second object, read in the opposite order (pretty before raw, by index before by name): what a
+        # view reports must not depend on which views were built before it
+        cfg2 = beacon.BeaconConfig(block)
+        o2 = {}
+        for k in reversed(list(views)):
+            f2 = {"name": lambda: cfg2.raw_settings, "const": lambda: cfg2.raw_settings_by_index, "enum": lambda: cfg2.settings_map("enum"), "pname": lambda: cfg2.settings,
+                  "pconst": lambda: cfg2.settings_by_index, "penum": lambda: cfg2.settings_map("enum", pretty=True), "name2": lambda: cfg2.settings_map("name"),
+                  "const2": lambda: cfg2.settings_map("const", parse=True)}[k]
+            r = core.outcome(lambda: list(f2().items()))
+            o2[k] = r[1] if r[0] == "ok" else ("exc", r[1])
+        o["order_dependent"] = sorted(k for k in views if repr(o2[k]) != repr(o[k]))
         return o
 
     return core.guarded(go, seconds=5)
@@ -103,6 +114,8 @@ def run(ctx):
             viol("exception", {**brief, "got": o})
             continue
         o = o[1]
+        if o.get("order_dependent"):
+            viol("view_depends_on_access_order", {**brief, "views": o["order_dependent"]})
         if o["recs"] != row["recs"]:
             viol("records", {**brief, "got": [(x["index"], x["type"], x["length"], len(x["value"])) for x in o["recs"]]})
             continue
@@ -185,6 +198,9 @@ def run(ctx):
     blocks = [(random_block(False), False) for _ in range(60 if q else 1500)] + [(random_block(True), True) for _ in range(20 if q else 500)]
     # a block with a 65535-byte value inside ~70 KB, and real sample config blocks
     blocks.append((rec(1, 1, b"\x00\x08") + rec(200, 3, bytes(65535)) + rec(2, 1, b"\x01\xbb") + b"\x00\x00", False))
+    # both meanings of index 36 in one block (deprecated SHORT and current PTR), in both orders, among other settings
+    for a_, b_ in ((rec(36, 1, b"\x00\x05"), rec(36, 3, b"QUJD\x00\x00")), (rec(36, 3, b"hash\x00"), rec(36, 1, b"\x00\x07"))):
+        blocks.append((rec(1, 1, b"\x00\x00") + a_ + rec(2, 1, b"\x01\xbb") + b_ + rec(37, 2, b"\x00\x00\x00\x09") + rec(16, 1, b"\x00\x01") + b"\x00\x00", True))
     # over-long User-Agents whose continuation is longer than any read-ahead buffer (8 KiB, 64 KiB)
     for cont in ([8193, 70001] if q else [8191, 8192, 8193, 16385, 65536, 70001, 300001]):
         tail = bytes(rng.randrange(1, 256) for _ in range(cont))
@@ -244,6 +260,8 @@ def run(ctx):
                        "name_vals": [], "const_vals": [], "enum_vals": [], "pretty_name_keys": [], "pretty_const_keys": [], "pretty_same": []})
             continue
         o = o[1]
+        if o.get("order_dependent"):
+            viol("view_depends_on_access_order", {"block_len": len(block), "block_head": L(block[:24]), "views": o["order_dependent"]})
         raw_const = dict(o["const"]) if not isinstance(o["const"], tuple) else {}
         e = {"op": "decode", "block": L(block), "r": "ok", "recs": o["recs"], "setting_enums": o["setting_enums"]}
         bad_view = [k for k in ("name", "const", "enum") if isinstance(o[k], tuple)]
